@@ -104,7 +104,7 @@ func c02Templates(tier string) []string {
 	add("f(// c\n)", "x = [1, // c\n]", "if // c\n{ }", "for // c\n{ }", "a. // c", "!(! // c\n)", "func f(){return // c\n}", "if x { a = // c\n1 }", "if x { a + // c\n1 }", "(a = // c\n) * 2",
 		"f(/* c */)", "[/* c */]", "-/* c */a", "return /* c */ a", "a = /* c */ 1", "a + /* c */", "f(a, /* c */)", "{1: /* c */}", "x => // c\n", "x => /* c */ x", "a[// c\n]", "a[/* c */ 1]", "if a { // c\n} else { /* d */ }")
 	// a dot or a number next to a dot or a number
-	add("1. 5", "1 .5", "1; ..", "1; .5", "a. 5", "a. .5", "a. ..", "a.(b.c)", "a.(b(1))", "a.(b[1])", "a.(1+2)", "a.(-1)", "a.b.(c)", "1.5.a", "(1).a", "(1.).a", "a.1.2", "..; 1", ".5; .5", "1; 1", "1.; .1", "a.b; .5", "a. ..++", "(1). ..--", "a. ..++\nb", "a.b++", "a.b--\n-c")
+	add("1. 5", "1 .5", "1; ..", "1; .5", "a. 5", "a. .5", "a. ..", "a.(b.c)", "a.(b(1))", "a.(b[1])", "a.(1+2)", "a.(-1)", "a.b.(c)", "1.5.a", "(1).a", "(1.).a", "a.1.2", "..; 1", ".5; .5", "1; 1", "1.; .1", "a.b; .5", "(08).a", "(9223372036854775808).a", "(1e3).a", "(1.5).a", "(0x1f).a", "(.5).a", "(1_0).a", "(00).a", "(09.5).a", "f((99999999999999999999).k, 1)", "a. ..++", "(1). ..--", "a. ..++\nb", "a.b++", "a.b--\n-c")
 	for _, p := range rtPrefix {
 		for _, q := range rtPrefix {
 			add(p+q+"a", p+"("+q+"a)", p+" "+q+"a")
